@@ -432,7 +432,7 @@ pub fn run(ctx: &Ctx) -> Report {
     rep.assumptions.push("names that are equal under the container's comparison (same packed length, same upper-cased form) are one stream".into());
     let mut st = Stats::new();
     let max_ops = ctx.tier.pick(14, 30);
-    let v = search(ctx, "streams", ctx.tier.pick(40_000, 400_000), || prop::collection::vec(op_strategy(), 0..max_ops).prop_map(|ops| Case { ops }), |c: &Case, st| {
+    let v = search(ctx, "streams", ctx.tier.pick(120_000, 1_200_000), || prop::collection::vec(op_strategy(), 0..max_ops).prop_map(|ops| Case { ops }), |c: &Case, st| {
         st.eval();
         if st.wants_sample() && c.ops.len() > 4 && st.evaluations % 31 == 2 {
             st.sample(json!(c));
